@@ -14,7 +14,8 @@ import os
 PROP = "C11"
 PROPS_MODULE = "BiotiteModel.Props.C11"
 DRIVER_MODULE = "BiotiteModel.Driver.C11"
-EXT_MODULES = ["biotite.sequence.align.multiple"]
+EXT_MODULES = ["biotite.sequence.align.multiple", "biotite.sequence.align.pairwise", "biotite.sequence.align.tracetable",
+               "biotite.sequence.phylo.upgma", "biotite.sequence.phylo.tree"]
 GEN_FILES = ["BiotiteModel/Gen/C11.lean"]
 TECHNIQUE = ("Lean 4 proof (induction over trace columns, CIGAR op lists and the guide tree) + differential correspondence with "
              "alignment.py / cigar.py / fasta/convert.py / multiple.pyx")
